@@ -187,6 +187,15 @@ class Folder:
 
     def module_const(self, modname, name):
         mod = self.prog.module(modname)
+        hops = 0
+        while name not in mod.assigns and hops < 3:
+            # the constant moved to another module of the package and is imported from there under the same (or an `as`) name
+            hops += 1
+            imp = mod.imports.get(name)
+            if imp is not None and imp[0] == 'sym' and imp[1] in self.prog.modules:
+                mod, name = self.prog.modules[imp[1]], imp[2]
+            else:
+                break
         if name not in mod.assigns:
             raise AnalysisError('module constant vanished: %s.%s' % (modname, name))
         try:
